@@ -458,10 +458,12 @@ def mk_not(a, cons):
 
 def refine(t, vs, cons):
     """Constrain term t to lie in vs (in place on cons). Returns False if infeasible."""
+    k = t[0]
+    if k == 'app' or (k == 't' and t[2] == 'opaque'):
+        return True                  # opaque values carry no numeric constraint
     cur = vs_of(t, cons).meet(vs)
     if cur.empty():
         return False
-    k = t[0]
     if k == 'c':
         return True
     if k == 't':
